@@ -46,6 +46,15 @@ func runC08(c *Ctx, idx int) {
 			sc.SwitchOptsAt = 2 + c.G.Intn(sc.Epochs-2)
 			sc.switchThreshold = true
 		}
+		if idx%6 == 1 {
+			// a population restored from the dump by species of a population that was speciated under another threshold
+			sc.Ctor = ctorRead
+			sc.BySpeciesFactor = pick(c.G, 0.2, 0.5, 3.0, 10.0)
+			if sc.Opts.MutdiffCoeff == 0 {
+				sc.Opts.MutdiffCoeff = 1
+			}
+			c.Count("scenarios.restored_from_a_dump_by_species_made_under_another_threshold", 1)
+		}
 		mon := &specMonitor{inEpoch: true}
 		runScenario(c, sc, mon)
 	}
@@ -367,6 +376,22 @@ func c08Direct(c *Ctx) {
 			genomes = append(genomes, buildFromSnap(s))
 		}
 		c.Count("batches.with_gene_less_genomes", 1)
+	}
+	if r.Intn(3) == 0 {
+		// strangers: small genomes that have no innovation number in common with anybody (a population put together from
+		// several runs, or built by NewPopulationRandom) - their distances are purely structural
+		for k := 0; k < 2+r.Intn(3); k++ {
+			s := snapGenome(genomes[r.Intn(len(genomes))])
+			if keep := 1 + r.Intn(3); len(s.Genes) > keep {
+				s.Genes = s.Genes[:keep]
+			}
+			for i := range s.Genes {
+				s.Genes[i].Innov += int64(100000 * (k + 1))
+			}
+			s.Id = f.newId()
+			genomes = append(genomes, buildFromSnap(s))
+		}
+		c.Count("batches.with_genomes_sharing_no_innovation", 1)
 	}
 	// threshold at a quantile of the empirical distances
 	var ds []float64
